@@ -371,33 +371,43 @@ class Batch:
                 part = cases[i:i + chunk]
                 exprs.append(coq_case(*cfg, [t for t, _ in part]))
                 index.append((cfg, part))
-        model = ck.coq_eval(self.stream.replace("/", "_").replace("-", "_"), PREAMBLE, exprs, shard=40)
+        try:
+            model = ck.coq_eval(self.stream.replace("/", "_").replace("-", "_"), PREAMBLE, exprs, shard=40)
+        except Exception as e:
+            # the model cannot be evaluated (broken generated table / theory): reported, and every case still goes
+            # through the implementation-only oracle
+            ck.violation("C03/model-evaluation/%s" % self.stream, "the Coq model could not be evaluated: %s" % str(e)[-600:],
+                         {"kind": "model-eval", "stream": self.stream, "error": str(e)[-3000:]}, found_input=False)
+            model = [None] * len(exprs)
         for (cfg, part), out in zip(index, model):
-            outs = out.split("|")
+            outs = out.split("|") if out is not None else [None] * len(part)
             if len(outs) != len(part):
-                raise RuntimeError("model batch returned %d results for %d cases" % (len(outs), len(part)))
+                ck.violation("C03/model-evaluation/%s" % self.stream, "model batch returned %d results for %d cases"
+                             % (len(outs), len(part)), {"kind": "model-eval", "stream": self.stream}, found_input=False)
+                outs = [None] * len(part)
             for (terms, tags), ms in zip(part, outs):
-                self.compare(cfg, terms, tags, ms, oracle)
+                try:
+                    self.compare(cfg, terms, tags, ms, oracle or ms is None)
+                except Exception as e:
+                    import traceback
+                    ck.violation("C03/harness/%s" % self.stream, "case could not be compared: %r" % e,
+                                 {"kind": "case", "case": {"cfg": list(cfg), "terms": repr(terms)},
+                                  "traceback": traceback.format_exc()[-2000:]}, found_input=False)
 
     def compare(self, cfg, terms, tags, ms, oracle):
         ck = self.ck
         mapping, n, ne, spin, utd = cfg
         impl = run_impl(mapping, n, ne, spin, utd, terms)
-        mod = parse_model(ms)
+        mod = parse_model(ms) if ms is not None else None
         nontrivial = impl[0] == "Ok" and sum(1 for c in impl[1].values() if abs(c) > TOL) >= 2
         case = {"mapping": mapping, "n": n, "n_electrons": ne, "spin": spin, "up_then_down": utd,
                 "terms": [[list(map(list, t)), [complex(c).real, complex(c).imag]] for t, c in terms]}
         ck.case(self.stream, json.dumps(case), nontrivial=nontrivial,
-                sample=dict(case, impl=str(impl)[:300], model=ms[:300]),
+                sample=dict(case, impl=str(impl)[:300], model=(ms or "not evaluated")[:300]),
                 tags=[mapping, "n=%d" % n, "utd" if utd else "alt", impl[0]] + list(tags))
         bad = None
-        const_utd = utd and all(len(t) == 0 for t, _ in terms)
-        if const_utd and impl[0] == "Ok" and mod == ("Err", "ValueError") and not (n % 2):
-            # repaired variant of make_up_then_down (recorded finding C03/make_up_then_down/constant-operator):
-            # a constant is mapped to the constant; accepted without alarm
-            expect = {"I": sum(complex(c) for _, c in terms)} if terms else {}
-            if dict_diff(impl[1], expect):
-                bad = "constant operator mapped to %s instead of %s" % (impl[1], expect)
+        if mod is None:
+            pass
         elif impl[0] != mod[0]:
             bad = "implementation %s, model %s" % (impl if impl[0] == "Err" else "Ok", mod if mod[0] == "Err" else "Ok")
         elif impl[0] == "Ok":
@@ -406,17 +416,21 @@ class Batch:
                 bad = "coefficients differ on %s: implementation %s, model %s" % (
                     diff[:4], [impl[1].get(k, 0) for k in diff[:4]], [mod[1].get(k, 0) for k in diff[:4]])
         found = None
-        # the property itself: an operator of the documented domain must be mapped, not rejected
+        # the property itself: an operator of the documented domain must be mapped, not rejected.  Valid = the model
+        # (where evaluated) maps it, or: full-space encoding, operator inside the register, even n when re-ordering.
         support = max([q + 1 for t, _ in terms for q, _ in t] + [0])
-        if impl[0] == "Err" and mapping in FULL and n >= support and not (utd and n % 2):
+        valid = (mod is not None and mod[0] == "Ok") or \
+                (mapping in FULL and n >= support and not (utd and n % 2))
+        if impl[0] == "Err" and valid:
             if utd and all(len(t) == 0 for t, _ in terms):
                 sig = "C03/make_up_then_down/constant-operator"
                 why = "an operator without ladder factors (constant / zero) is rejected when up_then_down=True"
             else:
                 sig = "C03/%s/rejected-valid-operator" % mapping
-                why = "an operator inside the register is rejected"
+                why = "an exception is raised on an operator of the documented domain"
             ck.violation(sig, "%s: %s(%s); case %s" % (why, impl[1], mapping, json.dumps(case)[:400]),
                          {"kind": "case", "case": case}, found_input=True)
+            return               # a concrete failing input was reported; the mismatch with the model is explained by it
         if oracle or bad:
             found = oracle_spectrum(mapping, n, ne, spin, utd, terms, impl) if n <= 8 else None
             if found is None and bad and not is_hermitian_terms(terms, n):
@@ -428,7 +442,7 @@ class Batch:
         if bad and not found:
             ck.violation("C03/%s/correspondence/%s" % (mapping, self.stream),
                          "model and implementation differ: %s; case %s" % (bad, json.dumps(case)[:600]),
-                         {"kind": "case", "case": case, "impl": str(impl)[:2000], "model": ms[:2000]}, found_input=False)
+                         {"kind": "case", "case": case, "impl": str(impl)[:2000], "model": (ms or "")[:2000]}, found_input=False)
 
 
 def stream_exhaustive(ck, nmax):
@@ -559,34 +573,54 @@ def run(ck):
                       "scBK is exercised for even n_spinorbitals >= 2 only (spin-orbitals come in pairs)",
                       "matrix elements of qubit operators use the closed-form word action (word_flip / word_phase) of Pauli/Action.v"]
     try:
-        ck.write_gen("EncodingTables", encoding_tables.emit(encoding_tables.extract(REPO)))
-    except TranslateError as e:
+        tables = encoding_tables.extract(REPO)
+        ck.notes["tables_source"] = "regenerated from /repo"
+    except Exception as e:       # TranslateError (fail closed) or anything else inside the translator
         ck.violation("C03/translator/encoding_tables", "translator no longer recognises the source: %s" % e,
                      {"kind": "translator", "error": str(e)}, found_input=False)
-        return
-    res = ck.prove()
-    if not res.ok:
-        ck.proof_violation(res)
+        tables = encoding_tables.FALLBACK
+        ck.notes["tables_source"] = "FALLBACK last-known-good constants from translator/encoding_tables.py " \
+                                    "(the translator failed on the current source: %s)" % str(e)[:200]
+    ck.write_gen("EncodingTables", encoding_tables.emit(tables))
+    try:
+        res = ck.prove()
+        if not res.ok:
+            ck.proof_violation(res)
+    except Exception as e:
+        ck.violation("C03/proof/build", "the proof step could not be run: %s" % str(e)[-600:],
+                     {"kind": "proof", "error": str(e)[-3000:]}, found_input=False)
     try:
         import tangelo.toolboxes.qubit_mappings.mapping_transform  # noqa
     except Exception as e:
         ck.violation("C03/import", "tangelo qubit mappings cannot be imported: %r" % e, {"kind": "import"}, found_input=False)
-        return
+        return                   # nothing of the implementation can be executed
     quick = ck.tier == "quick"
-    corpus = VERIF / "corpus" / "C03"
-    if corpus.exists():
-        b = Batch(ck, "corpus", "stored cases")
-        for f in sorted(corpus.glob("*.json")):
-            c = json.loads(f.read_text())["case"]
-            b.add(c["mapping"], c["n"], c["n_electrons"], c["spin"], c["up_then_down"],
-                  [(tuple(tuple(x) for x in t), complex(*co)) for t, co in c["terms"]])
-        b.run()
-    stream_exhaustive(ck, 4 if quick else 6)
-    stream_random(ck, 200 if quick else 3000, 6 if quick else 8)
-    stream_errors(ck, 60 if quick else 600)
-    stream_oracle(ck, 3 if quick else 5, 60 if quick else 600, 4 if quick else 6)
+
+    def guarded(name, f):
+        try:
+            f()
+        except Exception as e:
+            import traceback
+            ck.violation("C03/stream/%s" % name, "stream %s could not complete: %r" % (name, e),
+                         {"kind": "stream", "stream": name, "traceback": traceback.format_exc()[-3000:]}, found_input=False)
+
+    def corpus_stream():
+        corpus = VERIF / "corpus" / "C03"
+        if corpus.exists():
+            b = Batch(ck, "corpus", "stored cases")
+            for f in sorted(corpus.glob("*.json")):
+                c = json.loads(f.read_text())["case"]
+                b.add(c["mapping"], c["n"], c["n_electrons"], c["spin"], c["up_then_down"],
+                      [(tuple(tuple(x) for x in t), complex(*co)) for t, co in c["terms"]])
+            b.run()
     from harness.props import C03_paired
-    C03_paired.run(ck)
+    guarded("corpus", corpus_stream)
+    guarded("oracle", lambda: stream_oracle(ck, 3 if quick else 5, 60 if quick else 600, 4 if quick else 6))
+    guarded("ladder-exhaustive", lambda: stream_exhaustive(ck, 4 if quick else 6))
+    guarded("random-operators", lambda: stream_random(ck, 200 if quick else 3000, 6 if quick else 8))
+    guarded("error-cases", lambda: stream_errors(ck, 60 if quick else 600))
+    guarded("hcb", lambda: C03_paired.run_hcb_stream(ck))
+    guarded("combinatorial", lambda: C03_paired.run_comb_stream(ck))
 
 
 def replay(data):
